@@ -250,12 +250,18 @@ def default_trusted():
 
 # ---------------------------------------------------------------- translator
 
-def regen(ctx):
-    """Regenerate coq/gen/*.v from /repo's current working tree."""
+def regen(ctx, units=None):
+    """Regenerate coq/gen/*.v from /repo's current working tree.
+    `units` (or "gen_units" in checks/<pid>.json) restricts the run to the named
+    translator plug-ins, so that a property is not failed by another unit's generator."""
     sys.path.insert(0, os.path.join(ROOT, "tools"))
     import gen as gen_mod
+    if units is None:
+        mp = os.path.join(ROOT, "checks", ctx.pid + ".json")
+        if os.path.exists(mp):
+            units = json.load(open(mp)).get("gen_units")
     with Lock("coq"):
-        problems = gen_mod.generate(REPO, os.path.join(COQ, "gen"))
+        problems = gen_mod.generate(REPO, os.path.join(COQ, "gen"), units)
     ctx.oblige("translator:regen", not problems, "; ".join(problems))
     return not problems
 
